@@ -3,7 +3,7 @@
    text, independently of Model/Negotiate.v) and the theorems; proofs are in
    Proofs/C10.v. *)
 From Coq Require Import List NArith ZArith Bool.
-From Cedar Require Import Model.Negotiate Proofs.C10.
+From Cedar Require Import Model.Negotiate Proofs.C10 Proofs.C10Full.
 Import ListNotations.
 
 (* ---- the decision table, from the property text ---------------------------- *)
@@ -150,3 +150,173 @@ Example C10_ex_idtokens :
   exists r, honest ex_aok (mkP Rq Op Op [mIDT] [cAES] 11) (mkP Rq Op Op [mIDT] [cAES] 22) 5 = HOk r
             /\ k_rounds r = [(2048, 2048)]%Z /\ k_cmeth r = mIDT /\ k_smeth r = mIDT.
 Proof. eexists. vm_compute. repeat split. Qed.
+
+(* ============================================================================
+   Second part: ALL Integrity levels on both sides (4^6 level combinations) and
+   the client's token pre-filter.
+
+   The model is [honest_i aok tok C S sid] (Model/Negotiate.v): negotiateSecurity
+   with the Integrity reconciliation ([decide_i]), the client's intersection with
+   the pre-filter ([cl_methods_t tok]: a token method is offered only when
+   hasCompatibleToken = [tok]), both retry loops, setupStreamEncryption /
+   plaintextOutcome with Encryption and Integrity.
+
+   The table, again written from the property text and not mentioning
+   [negotiate_i] / [decide_i] / [flow_i]:
+   - Integrity is a feature with a level like the other two; AES-256-GCM is the
+     one cipher cedar implements and provides both encryption and integrity, so
+     the "mutually supported method" of REQUIRED integrity is a mutual cipher;
+   - a "mutually usable method" is one both list, that is a real method, whose
+     sub-protocol works between the two peers, and -- for the token family --
+     for which the client holds a token usable against this server.
+   ============================================================================ *)
+
+
+Definition Usable (aok : meth -> bool) (tok : bool) (m : meth) : Prop :=
+  m <> mNONE /\ aok m = true /\ (is_token m = true -> tok = true).
+Definition MutualUsable (aok : meth -> bool) (tok : bool) (cm sm : list meth) : Prop :=
+  exists m, In m cm /\ In m sm /\ Usable aok tok m.
+
+(* "fails exactly when one side requires what the other forbids or a required
+   feature has no mutually supported method" -- three features *)
+Definition MustFail_i (aok : meth -> bool) (tok : bool) (C S : policy) : Prop :=
+  (Req (p_auth C) (p_auth S) /\ Nev (p_auth C) (p_auth S)) \/
+  (Req (p_enc C) (p_enc S) /\ Nev (p_enc C) (p_enc S)) \/
+  (Req (p_integ C) (p_integ S) /\ Nev (p_integ C) (p_integ S)) \/
+  (Req (p_auth C) (p_auth S) /\ ~ MutualUsable aok tok (p_meths C) (p_meths S)) \/
+  (Req (p_enc C) (p_enc S) /\ ~ MutualCipher (p_ciphs C) (p_ciphs S)) \/
+  (Req (p_integ C) (p_integ S) /\ ~ MutualCipher (p_ciphs C) (p_ciphs S)).
+
+Definition AuthRuns_i (aok : meth -> bool) (tok : bool) (C S : policy) : Prop :=
+  Req (p_auth C) (p_auth S) \/
+  (Pref (p_auth C) (p_auth S) /\ ~ Nev (p_auth C) (p_auth S) /\ MutualUsable aok tok (p_meths C) (p_meths S)).
+
+Definition Agreed_i (aok : meth -> bool) (tok : bool) (C S : policy) (r : hok) : Prop :=
+  (k_sauth r = true <-> AuthRuns_i aok tok C S) /\
+  k_cauth r = k_sauth r /\
+  (k_sauth r = true ->
+     exists m, k_ran r = Some m /\ k_cmeth r = m /\ k_smeth r = m /\
+               In m (p_meths C) /\ In m (p_meths S) /\ Usable aok tok m) /\
+  (k_sauth r = false -> k_ran r = None) /\
+  (* the AES-GCM channel is on whenever either side requires encryption or integrity *)
+  (Req (p_enc C) (p_enc S) \/ Req (p_integ C) (p_integ S) -> k_creal r = true) /\
+  k_cenc r = k_creal r /\ k_senc r = k_sreal r /\ k_creal r = k_sreal r /\
+  k_csid r = k_ssid r /\ k_ckey r = k_skey r /\
+  (k_creal r = true -> k_ckey r <> None).
+
+(* The cells of finding c10-late-unusable-method, characterised from the two
+   configurations alone: some commonly listed real method works in principle
+   ([MutualMethod], all the server can see), none is usable by THIS client (its
+   token pre-filter withdraws them), the levels make the server commit to
+   authentication, and nothing else makes the handshake fail. *)
+Definition StaleOffer (aok : meth -> bool) (tok : bool) (C S : policy) : Prop :=
+  MutualMethod aok (p_meths C) (p_meths S) /\ ~ MutualUsable aok tok (p_meths C) (p_meths S) /\
+  (Req (p_auth C) (p_auth S) \/ (Pref (p_auth C) (p_auth S) /\ ~ Nev (p_auth C) (p_auth S))) /\
+  ~ (Req (p_auth C) (p_auth S) /\ Nev (p_auth C) (p_auth S)) /\
+  ~ (Req (p_enc C) (p_enc S) /\ Nev (p_enc C) (p_enc S)) /\
+  ~ (Req (p_integ C) (p_integ S) /\ Nev (p_integ C) (p_integ S)) /\
+  ~ ((Req (p_enc C) (p_enc S) \/ Req (p_integ C) (p_integ S)) /\ ~ MutualCipher (p_ciphs C) (p_ciphs S)).
+
+(* ---- the full table -----------------------------------------------------------
+   All 4^6 combinations of the four level names for Authentication, Encryption and
+   Integrity on both sides (finite: complete enumeration of the control flow,
+   Proofs.C10Full.row_ok_i_all, 4^6 x 2^5 = 131 072 rows, lifted with
+   forallb_forall; the bound is the six memberships in [four_levels]), ALL method
+   and cipher lists (induction), both values of [tok], all keys and session ids.
+
+   Outside the stale-offer cells the property holds in full: explicit denial
+   exactly on the must-fail cells, success with agreement everywhere else.  In the
+   stale-offer cells both ends fail WITHOUT a denial (the finding; the statement
+   for them is exact, not an exclusion).  Remaining hypotheses: the alias one and
+   "a commonly listed method works iff implemented", as for [C10_table]. *)
+Theorem C10_table_full : forall (aok : meth -> bool) (tok : bool) (C S : policy) (sid : N),
+  In (p_auth C) four_levels -> In (p_auth S) four_levels ->
+  In (p_enc C) four_levels -> In (p_enc S) four_levels ->
+  In (p_integ C) four_levels -> In (p_integ S) four_levels ->
+  ~ (In mTOK (p_meths S) /\ In mIDT (p_meths S)) ->
+  (forall m, In m (p_meths C) -> In m (p_meths S) -> m <> mNONE -> aok m = implemented m) ->
+  (StaleOffer aok tok C S -> exists rs, honest_i aok tok C S sid = HFail true true rs) /\
+  (~ StaleOffer aok tok C S ->
+     (MustFail_i aok tok C S -> honest_i aok tok C S sid = HDenied) /\
+     (~ MustFail_i aok tok C S -> exists r, honest_i aok tok C S sid = HOk r /\ Agreed_i aok tok C S r)).
+Proof. exact table_full. Qed.
+Print Assumptions C10_table_full.
+
+(* The property at full strength for a client whose token methods are backed by a
+   usable token: no stale cell, the unconditional statement over the 4^6 matrix. *)
+Theorem C10_table_integrity : forall (aok : meth -> bool) (C S : policy) (sid : N),
+  In (p_auth C) four_levels -> In (p_auth S) four_levels ->
+  In (p_enc C) four_levels -> In (p_enc S) four_levels ->
+  In (p_integ C) four_levels -> In (p_integ S) four_levels ->
+  ~ (In mTOK (p_meths S) /\ In mIDT (p_meths S)) ->
+  (forall m, In m (p_meths C) -> In m (p_meths S) -> m <> mNONE -> aok m = implemented m) ->
+  (MustFail_i aok true C S -> honest_i aok true C S sid = HDenied) /\
+  (~ MustFail_i aok true C S -> exists r, honest_i aok true C S sid = HOk r /\ Agreed_i aok true C S r).
+Proof. exact table_tok. Qed.
+Print Assumptions C10_table_integrity.
+
+(* ... and for a client without one as long as no token method is common to the two lists *)
+Theorem C10_no_stale_without_token_methods : forall aok tok (C S : policy),
+  (forall m, In m (p_meths C) -> In m (p_meths S) -> is_token m = false) -> ~ StaleOffer aok tok C S.
+Proof. exact no_stale_when_no_token. Qed.
+Print Assumptions C10_no_stale_without_token_methods.
+
+(* The unconditional statement is FALSE for a client without a usable token
+   (finding c10-late-unusable-method; the two witnesses are replayed on the real
+   code on every run, corpus/C10/stale-*.json): (1) both PREFERRED, TOKEN the only
+   common method, no token: the table says "succeeds unauthenticated", the
+   handshake fails on both ends; (2) server REQUIRED: the table says "explicit
+   denial", both ends fail without one. *)
+Definition ex_tokC (a : lvl) := mkP a Op Op [mTOK] [cAES] 11.
+Definition ex_tokS (a : lvl) := mkP a Op Op [mTOK] [cAES] 22.
+Theorem C10_token_refuted :
+  (~ MustFail_i ex_aok false (ex_tokC Pf) (ex_tokS Pf) /\
+   honest_i ex_aok false (ex_tokC Pf) (ex_tokS Pf) 5 = HFail true true []) /\
+  (MustFail_i ex_aok false (ex_tokC Op) (ex_tokS Rq) /\
+   honest_i ex_aok false (ex_tokC Op) (ex_tokS Rq) 5 = HFail true true []).
+Proof. exact token_refuted. Qed.
+Print Assumptions C10_token_refuted.
+
+(* Whatever the levels (any strings), lists, [tok] and sub-protocol behaviour: a
+   successful handshake leaves every endpoint whose own Encryption or Integrity is
+   REQUIRED with a really encrypting stream, both ends in the same reported state. *)
+Theorem C10_required_protection_i : forall (aok : meth -> bool) (tok : bool) (C S : policy) (sid : N) (r : hok),
+  honest_i aok tok C S sid = HOk r ->
+  (requires_protection C = true -> k_creal r = true) /\
+  (requires_protection S = true -> k_sreal r = true) /\
+  k_creal r = k_sreal r /\ k_cenc r = k_creal r /\ k_senc r = k_sreal r.
+Proof. exact honest_i_protection. Qed.
+Print Assumptions C10_required_protection_i.
+
+(* ---- non-vacuity ---------------------------------------------------------------- *)
+
+(* server Integrity REQUIRED, no common cipher, nobody requires Encryption: explicit
+   denial (before the fix the server failed at the end and the client saw a bare close) *)
+Example C10_ex_integ_denied :
+  honest_i ex_aok true (mkP Op Op Op [mCTB] [] 11) (mkP Op Op Rq [mCTB] [cAES] 22) 5 = HDenied
+  /\ MustFail_i ex_aok true (mkP Op Op Op [mCTB] [] 11) (mkP Op Op Rq [mCTB] [cAES] 22).
+Proof. split; [vm_compute; reflexivity|]. unfold MustFail_i. do 5 right. split; [right; reflexivity|].
+  intros [[] _]. Qed.
+(* client Integrity REQUIRED against NEVER: denied although a cipher is common *)
+Example C10_ex_integ_never :
+  honest_i ex_aok true (mkP Op Op Rq [mCTB] [cAES] 11) (mkP Op Op Nv [mCTB] [cAES] 22) 5 = HDenied.
+Proof. vm_compute. reflexivity. Qed.
+(* Integrity REQUIRED with a common cipher and Encryption NEVER/OPTIONAL: succeeds, AES-GCM on *)
+Example C10_ex_integ_on :
+  exists r, honest_i ex_aok true (mkP Pf Nv Rq [mCTB] [cAES] 11) (mkP Op Op Pf [mCTB] [cAES] 22) 5 = HOk r
+            /\ k_creal r = true /\ k_sreal r = true /\ k_cauth r = true /\ k_ckey r = Some (KDH 11 22).
+Proof. eexists. vm_compute. repeat split. Qed.
+(* a client without a token that also lists FS: the pre-filter withdraws IDTOKENS, FS runs *)
+Example C10_ex_prefilter_fallback :
+  exists r, honest_i ex_aok false (mkP Rq Op Op [mIDT; mFS] [cAES] 11) (mkP Rq Op Op [mIDT; mFS] [cAES] 22) 5 = HOk r
+            /\ k_rounds r = [(4, 4)]%Z /\ k_cmeth r = mFS /\ k_smeth r = mFS
+            /\ ~ StaleOffer ex_aok false (mkP Rq Op Op [mIDT; mFS] [cAES] 11) (mkP Rq Op Op [mIDT; mFS] [cAES] 22).
+Proof.
+  eexists. split; [vm_compute; reflexivity|]. repeat split.
+  intros [_ [N _]]. apply N. exists mFS. simpl. unfold Usable. repeat split; auto; discriminate.
+Qed.
+(* the stale cell with something to exhaust: TOKEN withdrawn, only the PASSWORD stub left *)
+Example C10_ex_stale_exhausted :
+  honest_i ex_aok false (mkP Rq Op Op [mTOK; mPW] [cAES] 11) (mkP Op Op Op [mPW; mTOK] [cAES] 22) 5
+  = HFail true true [(512, 512); (0, -1)]%Z.
+Proof. vm_compute. reflexivity. Qed.
